@@ -259,7 +259,12 @@ fn gen_subject(r: &mut Rng, n: usize) -> AffTree<2> {
                 term_pool: 0,
             };
             let m = 1 + r.below(2);
-            gen_tree(r, n, m, cfg)
+            // arenas with freed / re-used indices: the largest index may exceed len()
+            if r.chance(1, 2) {
+                gen_tree_holes(r, n, m, cfg, 2)
+            } else {
+                gen_tree(r, n, m, cfg)
+            }
         }
     }
 }
@@ -278,6 +283,14 @@ fn emit_slice(out: &mut String, r: &mut Rng, id: &str, t: &AffTree<2>, reference
         s.compose::<false, false>(t);
         s
     }));
+    // the documented workflow slice -> compose -> eliminate -> remove_axes: elimination leaves holes in the arena
+    let eliminate = r.chance(1, 3);
+    let comp = comp.map(|mut s| {
+        if eliminate {
+            let _ = catch(AssertUnwindSafe(|| s.infeasible_elimination()));
+        }
+        s
+    });
     let mut s = match comp {
         Ok(s) => s,
         Err(_) => {
@@ -324,7 +337,11 @@ fn random_slice(out: &mut String, r: &mut Rng, id: &str) {
     emit_slice(out, r, id, &t, reference, mask);
 }
 fn emit_remove_axes(out: &mut String, r: &mut Rng, id: &str, t: &AffTree<2>, mask: Array1<bool>) {
-    let head = format!("(case {} remove_axes {} {}", id, sx_tree(t), sx_mask(&mask));
+    let mut t = t.clone();
+    if r.chance(1, 3) {
+        let _ = catch(AssertUnwindSafe(|| t.infeasible_elimination()));
+    }
+    let head = format!("(case {} remove_axes {} {}", id, sx_tree(&t), sx_mask(&mask));
     let mut s = t.clone();
     let res = catch(AssertUnwindSafe(|| s.remove_axes(&mask)));
     match res {
